@@ -621,6 +621,29 @@ func (x *c14Ctx) contain(c c14Call, o c14Out, where string) {
 		x.fail("C14/panic/"+circ+"/"+c.entry(), "%s: %s panicked instead of returning an address or an error: %s", where, what, o.panic)
 		return
 	}
+	// "destination-port randomisation is granted only if THAT subnet allows it": with overlapping
+	// subnets in groups of different flags, which subnet was chosen cannot be read off the address.
+	// The client library's selection over the same generation list is an independent implementation
+	// of the same choice (library versions with HKDF selection): same address => same flag.
+	if c.station && g != nil && !g.removed && c.libver >= 2 && !o.isErr && !o.noIP && o.panic == "" && c.gi < len(w.lists) {
+		f := V4Only
+		if c.v6 {
+			f = V6Only
+		}
+		func() {
+			defer func() { recover() }()
+			cp, err := SelectPhantom(append([]byte(nil), c.seed...), w.lists[c.gi], f, true)
+			if err == nil && cp != nil && cp.IP() != nil && net.IP(o.ip).Equal(*cp.IP()) {
+				r.Probe("result/flag-cross-checked-with-client-selection")
+				if cp.SupportRandomPort() != o.flag {
+					x.fail("C14/containment/random-port-flag-not-of-chosen-subnet", "%s: %s returned %s; the client library selects the same address from the same generation list with random-port=%v: the flag is not that of the subnet the address was chosen from (overlapping subnets in groups with different flags)", where, what, o, cp.SupportRandomPort())
+				}
+			}
+		}()
+		if x.stop {
+			return
+		}
+	}
 	if c.station && (g == nil || g.removed) {
 		if !o.isErr {
 			x.fail("C14/containment/unconfigured-generation-selected", "%s: %s returned %s although no subnets are configured for that generation", where, what, o)
@@ -773,6 +796,7 @@ func (x *c14Ctx) runCalls(calls []c14Call, setup func(*hook.Sched)) {
 	s := hook.Install(r.Tape)
 	defer s.Uninstall()
 	s.LockYield = true
+	s.UnlockYield = true // a draw made after the lock was dropped must be interleavable too
 	if setup != nil {
 		setup(s)
 	}
